@@ -89,7 +89,10 @@ def r1_validity(chk, F):
             for m in range(1, 13):
                 lim = MLEN[m - 1]
                 if m == 2:
-                    bad.append(("day>29 in Feb", c_and(c_lin("eq", mo - 2), c_lin("ge", d - 30))))
+                    # (split so that the recorded, test-locked acceptance of 30/31 February in leap years does not hide another one)
+                    bad.append(("day>29 in Feb", c_and(c_and(c_lin("eq", mo - 2), c_and(c_lin("ge", d - 30), c_lin("le", d - 31))), leap)))
+                    bad.append(("day 30..31 in Feb of a non-leap year", c_and(c_and(c_lin("eq", mo - 2), c_and(c_lin("ge", d - 30), c_lin("le", d - 31))), c_not(leap))))
+                    bad.append(("day>31 in Feb", c_and(c_lin("eq", mo - 2), c_lin("ge", d - 32))))
                     bad.append(("29 Feb in a non-leap year", c_and(c_and(c_lin("eq", mo - 2), c_lin("eq", d - 29)), c_not(leap))))
                 else:
                     bad.append(("day>%d in month %d" % (lim, m), c_and(c_lin("eq", mo - m), c_lin("ge", d - (lim + 1)))))
